@@ -118,7 +118,18 @@ def extract(repo=None):
         for g in reversed(conds):
             conj += split_and(g)
         writes.append((conj, _norm(m.group(0))))
-    return early, writes
+    # control.c, xmp_set_player(XMP_PLAYER_MODE): the block that keeps the old mode when the rescan under the new one fails
+    ct = _strip(open(os.path.join(repo, "src/control.c")).read())
+    m = re.search(r"if\s*\(\s*libxmp_scan_sequences\s*\(\s*ctx\s*\)\s*<\s*0\s*\)\s*\{", ct)
+    if not m:
+        raise RuntimeError("gen_c18_events: refused-mode branch of xmp_set_player not found in src/control.c")
+    depth, j = 1, m.end()
+    while depth:
+        depth += ct[j] == "{"
+        depth -= ct[j] == "}"
+        j += 1
+    cleanup = [_norm(x) for x in ct[m.end():j - 1].split(";") if _norm(x)]
+    return early, writes, cleanup
 
 
 def _s(x):
@@ -126,7 +137,7 @@ def _s(x):
 
 
 def generate(repo=None):
-    early, writes = extract(repo)
+    early, writes, cleanup = extract(repo)
     t = ["/- generated by tools/gen_c18_events.py from the working tree of libxmp -- do not edit -/",
          "namespace Xmp.Gen.C18Events",
          "",
@@ -140,9 +151,13 @@ def generate(repo=None):
          "def readRowFxWrites : List (List String × String) := [" +
          ", ".join("([%s], %s)" % (", ".join(_s(x) for x in g), _s(w)) for g, w in writes) + "]",
          "",
+         "/-- control.c, `xmp_set_player(XMP_PLAYER_MODE)`: the statements of the branch taken when the rescan under the new",
+         "mode finds nothing playable (\"keep the old mode\"), in order -/",
+         "def refusedModeCleanup : List String := [" + ", ".join(_s(x) for x in cleanup) + "]",
+         "",
          "end Xmp.Gen.C18Events", ""]
     changed = vlib.write_if_changed(OUT, "\n".join(t))
-    return dict(early=early, writes=writes), changed
+    return dict(early=early, writes=writes, cleanup=cleanup), changed
 
 
 if __name__ == "__main__":
@@ -151,3 +166,4 @@ if __name__ == "__main__":
         print(e)
     for w in info["writes"]:
         print(w)
+    print(info["cleanup"])
